@@ -156,6 +156,12 @@ func cmdC13(c *ctx) {
 			knob, o.flatRet = "nestedRet", false
 		}
 		m, feat := genModule(c, o)
+		// the tag is decided on the program, not on the option that was asked for
+		if hasNestedReturn(m) {
+			knob = "nestedRet"
+		} else {
+			knob = "flatRet"
+		}
 		src := m.wgsl()
 		if mod, _ := frontEnd(src); mod == nil {
 			c.count("frontend-rejected")
